@@ -1,12 +1,16 @@
 package main
 
 import (
+	"encoding/binary"
 	"encoding/json"
 	"fmt"
 	"os"
 	"path/filepath"
+	"runtime"
 	"sort"
+	"strconv"
 	"strings"
+	"sync"
 	"time"
 
 	"verif/engine"
@@ -31,21 +35,22 @@ type failing struct {
 
 // harnessResult is what exploring one harness at one bound produced (also the worker's JSON output).
 type harnessResult struct {
-	Harness   string           `json:"harness"`
-	Bound     int              `json:"bound"`
-	Stats     vsched.Stats     `json:"stats"`
-	Outcomes  map[string]int64 `json:"outcomes"`       // execution outcome -> count
-	Classes   map[string]int64 `json:"result_classes"` // canonical (call results, final state) -> count
-	Overlaps  map[string]int64 `json:"overlaps"`       // call -> executions in which it overlapped Shutdown
-	Traces    int              `json:"distinct_traces"`
-	Nontriv   int              `json:"distinct_nontrivial_traces"`
-	Failures  []*failing       `json:"failures"`
-	Samples   [][]string       `json:"samples"`
-	WallS     float64          `json:"wall_s"`
-	TraceKeys []uint64         `json:"-"`
-	NontrivK  []uint64         `json:"-"`
-	Counts    map[string]int64 `json:"harness_counters"`
-	MaxBlocked int             `json:"max_goroutines_left_blocked"`
+	Harness    string           `json:"harness"`
+	Bound      int              `json:"bound"`
+	Stats      vsched.Stats     `json:"stats"`
+	Outcomes   map[string]int64 `json:"outcomes"`       // execution outcome -> count
+	Classes    map[string]int64 `json:"result_classes"` // canonical (call results, final state) -> count
+	Overlaps   map[string]int64 `json:"overlaps"`       // call -> executions in which it overlapped Shutdown
+	Traces     int              `json:"distinct_traces"`
+	Nontriv    int              `json:"distinct_nontrivial_traces"`
+	Failures   []*failing       `json:"failures"`
+	Samples    [][]string       `json:"samples"`
+	WallS      float64          `json:"wall_s"`
+	TraceKeys  []uint64         `json:"-"`
+	NontrivK   []uint64         `json:"-"`
+	Counts     map[string]int64 `json:"harness_counters"`
+	MaxBlocked int              `json:"max_goroutines_left_blocked"`
+	Bits       uint             `json:"visited_table_bits"`
 }
 
 // judge turns one execution into failure signatures (empty = the execution satisfies the oracles).
@@ -170,7 +175,12 @@ func overlaps(notes []vsched.Note) map[string]bool {
 }
 
 var lastObs *obs
+var budgetEnd time.Time
 var exploreNoSleep, exploreNoCache bool
+
+// set in worker processes: the visited table shared with the sibling workers, and this worker's shuffle seed
+var sharedTable *vsched.SharedTable
+var shuffleSeed uint64
 
 func bodyOf(h *harness) func() {
 	return func() {
@@ -186,7 +196,10 @@ func exploreHarness(h *harness, bound int, deadline time.Time, maxExecs int64) *
 	traces := map[[2]uint64]bool{}
 	nontriv := map[[2]uint64]bool{}
 	fails := map[string]*failing{}
-	opts := vsched.Options{Bound: bound, Horizon: 4000, Deadline: deadline, MaxExecs: maxExecs, LowPriority: lowPriority, NoSleep: exploreNoSleep, NoCache: exploreNoCache}
+	opts := vsched.Options{Bound: bound, Horizon: 4000, Deadline: deadline, MaxExecs: maxExecs, LowPriority: lowPriority, Sleep: os.Getenv("VERIF_C32_SLEEP") != "" && !exploreNoSleep, NoCache: exploreNoCache, Shuffle: shuffleSeed}
+	if sharedTable != nil {
+		opts.Shared = sharedTable
+	}
 	var sampleChoices [][]vsched.Choice
 	body := bodyOf(h)
 	res.Stats = vsched.Explore(body, opts, func(e *vsched.Execution) bool {
@@ -329,10 +342,12 @@ func c32(r *engine.Run) {
 	if r.Quick() {
 		plan = []tierPlan{{"S1", []int{0, 1, 2}}, {"S2", []int{0, 1, 2}}, {"S3", []int{0, 1, 2}}, {"S4", []int{0, 1, 2}}}
 		r.SetBudget(70 * time.Second)
+		budgetEnd = time.Now().Add(70 * time.Second)
 	} else {
 		plan = []tierPlan{{"S1", []int{0, 1, 2, 3}}, {"S2", []int{0, 1, 2, 3}}, {"S3", []int{0, 1, 2}}, {"S4", []int{0, 1, 2, 3}},
 			{"S5", []int{0, 1, 2}}, {"S6", []int{0, 1, 2}}, {"S7", []int{0, 1, 2}}}
 		r.SetBudget(16 * time.Minute)
+		budgetEnd = time.Now().Add(16 * time.Minute)
 	}
 	if v := os.Getenv("VERIF_C32_ONLY"); v != "" {
 		var p []tierPlan
@@ -347,23 +362,273 @@ func c32(r *engine.Run) {
 	report(r, plan, results)
 }
 
-// runPlan explores every (harness, bound) of the plan.
+// runPlan explores every (harness, bound) of the plan: bound by bound (all harnesses at bound 0 first), each
+// job by a swarm of worker processes that share one visited-state table.
 func runPlan(r *engine.Run, plan []tierPlan) map[string][]*harnessResult {
 	out := map[string][]*harnessResult{}
-	deadline := time.Now().Add(time.Hour)
+	maxB := 0
 	for _, p := range plan {
-		h := harnessByName(p.harness)
 		for _, b := range p.bounds {
-			res := exploreHarness(h, b, deadline, 0)
+			if b > maxB {
+				maxB = b
+			}
+		}
+	}
+	dead := map[string]bool{}
+	for b := 0; b <= maxB; b++ {
+		for _, p := range plan {
+			has := false
+			for _, x := range p.bounds {
+				has = has || x == b
+			}
+			if !has || dead[p.harness] {
+				continue
+			}
+			if r.OutOfTime() {
+				out[p.harness] = append(out[p.harness], &harnessResult{Harness: p.harness, Bound: b, Stats: vsched.Stats{Bound: b, Stopped: "not started: time budget"},
+					Outcomes: map[string]int64{}, Classes: map[string]int64{}, Overlaps: map[string]int64{}, Counts: map[string]int64{}})
+				continue
+			}
+			res := swarm(r, p.harness, b, bitsFor(out[p.harness]))
+			for res.Stats.Stopped == "visited table full" && res.Bits < 28 && !r.OutOfTime() {
+				res = swarm(r, p.harness, b, res.Bits+3)
+			}
 			out[p.harness] = append(out[p.harness], res)
-			fmt.Fprintf(os.Stderr, "%s bound %d: execs=%d pruned=%d traces=%d outcomes=%v fails=%d exhaustive=%v %.1fs\n", p.harness, b,
-				res.Stats.Executions, res.Stats.Pruned, res.Traces, res.Outcomes, len(res.Failures), res.Stats.Exhaustive, res.WallS)
-			if res.Stats.Broken != "" {
-				break
+			fmt.Fprintf(os.Stderr, "%s bound %d: execs=%d pruned=%d skipped=%d states=%d traces=%d outcomes=%v fails=%d exhaustive=%v %s %.1fs\n", p.harness, b,
+				res.Stats.Executions, res.Stats.Pruned, res.Stats.Skipped, res.Stats.CacheStates, res.Traces, res.Outcomes, len(res.Failures), res.Stats.Exhaustive, res.Stats.Stopped, res.WallS)
+			if res.Stats.Broken != "" || !res.Stats.Exhaustive {
+				dead[p.harness] = true // higher bounds only after the lower one completed
 			}
 		}
 	}
 	return out
+}
+
+func numWorkers() int {
+	if v := os.Getenv("VERIF_C32_WORKERS"); v != "" {
+		if n, err := strconv.Atoi(v); err == nil && n > 0 {
+			return n
+		}
+	}
+	n := runtime.NumCPU() - 2
+	if n < 1 {
+		n = 1
+	}
+	return n
+}
+
+// swarm runs one (harness, bound) job on numWorkers() processes sharing a visited table and merges the results.
+// bitsFor sizes the visited table of the next bound from the state count of the previous one.
+func bitsFor(prev []*harnessResult) uint {
+	if len(prev) == 0 {
+		return 20
+	}
+	need := prev[len(prev)-1].Stats.CacheStates * 24 // states grow roughly 8x per preemption; keep the table < 1/3 full
+	bits := uint(18)
+	for (int64(1) << bits) < need {
+		bits++
+	}
+	if bits > 28 {
+		bits = 28
+	}
+	return bits
+}
+
+func swarm(r *engine.Run, harnessName string, bound int, bits uint) *harnessResult {
+	start := time.Now()
+	dir := engine.Scratch()
+	table := filepath.Join(dir, fmt.Sprintf("visited-%s-%d", harnessName, bound))
+	defer os.Remove(table)
+	// create the (sparse) table file up front
+	if t, err := vsched.OpenSharedTable(table, bits); err != nil {
+		return &harnessResult{Harness: harnessName, Bound: bound, Stats: vsched.Stats{Bound: bound, Broken: "shared table: " + err.Error()}}
+	} else {
+		t.Close()
+	}
+	n := numWorkers()
+	deadline := budgetEnd
+	type wres struct {
+		res *harnessResult
+		err string
+	}
+	results := make([]wres, n)
+	var wg sync.WaitGroup
+	for i := 0; i < n; i++ {
+		wg.Add(1)
+		go func(i int) {
+			defer wg.Done()
+			keyfile := filepath.Join(dir, fmt.Sprintf("keys-%s-%d-%d", harnessName, bound, i))
+			left := time.Until(deadline) + 30*time.Second
+			wr := engine.RunWorker(nil, 16<<20, left, "explore", harnessName, strconv.Itoa(bound), table, strconv.Itoa(int(bits)),
+				strconv.Itoa(i), strconv.FormatInt(deadline.UnixNano(), 10), keyfile)
+			if wr.TimedOut || wr.Died {
+				results[i].err = fmt.Sprintf("worker %d died (timeout=%v exit=%d): %s", i, wr.TimedOut, wr.ExitCode, tail(string(wr.Stderr), 300))
+				return
+			}
+			var hr harnessResult
+			if err := json.Unmarshal(wr.Stdout, &hr); err != nil {
+				results[i].err = fmt.Sprintf("worker %d: bad output: %v: %s", i, err, tail(string(wr.Stdout), 200))
+				return
+			}
+			hr.TraceKeys, hr.NontrivK = readKeys(keyfile)
+			os.Remove(keyfile)
+			results[i].res = &hr
+		}(i)
+	}
+	wg.Wait()
+	m := &harnessResult{Harness: harnessName, Bound: bound, Bits: bits, Outcomes: map[string]int64{}, Classes: map[string]int64{}, Overlaps: map[string]int64{}, Counts: map[string]int64{}}
+	m.Stats.Bound = bound
+	m.Stats.Exhaustive = true
+	traces := map[uint64]bool{}
+	nontriv := map[uint64]bool{}
+	fails := map[string]*failing{}
+	for _, w := range results {
+		if w.res == nil {
+			m.Stats.Broken = w.err
+			m.Stats.Exhaustive = false
+			continue
+		}
+		s := w.res.Stats
+		m.Stats.Executions += s.Executions
+		m.Stats.Pruned += s.Pruned
+		m.Stats.Skipped += s.Skipped
+		m.Stats.Steps += s.Steps
+		m.Stats.Accesses += s.Accesses
+		if s.MaxSteps > m.Stats.MaxSteps {
+			m.Stats.MaxSteps = s.MaxSteps
+		}
+		if s.MaxGoroutines > m.Stats.MaxGoroutines {
+			m.Stats.MaxGoroutines = s.MaxGoroutines
+		}
+		if s.MaxDepth > m.Stats.MaxDepth {
+			m.Stats.MaxDepth = s.MaxDepth
+		}
+		if s.CacheStates > m.Stats.CacheStates {
+			m.Stats.CacheStates = s.CacheStates // every worker reports the shared table's size at its end
+		}
+		if !s.Exhaustive {
+			m.Stats.Exhaustive = false
+			m.Stats.Stopped = s.Stopped
+		}
+		if s.Broken != "" {
+			m.Stats.Broken = s.Broken
+		}
+		for k, v := range w.res.Outcomes {
+			m.Outcomes[k] += v
+		}
+		for k, v := range w.res.Classes {
+			m.Classes[k] += v
+		}
+		for k, v := range w.res.Overlaps {
+			m.Overlaps[k] += v
+		}
+		for k, v := range w.res.Counts {
+			m.Counts[k] += v
+		}
+		if w.res.MaxBlocked > m.MaxBlocked {
+			m.MaxBlocked = w.res.MaxBlocked
+		}
+		for _, k := range w.res.TraceKeys {
+			traces[k] = true
+		}
+		for _, k := range w.res.NontrivK {
+			nontriv[k] = true
+		}
+		for _, f := range w.res.Failures {
+			if g := fails[f.Sig]; g == nil {
+				fails[f.Sig] = f
+			} else {
+				g.Count += f.Count
+				if len(f.Choices) < len(g.Choices) {
+					g.Choices = f.Choices
+				}
+			}
+		}
+		if len(m.Samples) < 3 {
+			m.Samples = append(m.Samples, w.res.Samples...)
+		}
+	}
+	m.Traces, m.Nontriv = len(traces), len(nontriv)
+	for k := range traces {
+		m.TraceKeys = append(m.TraceKeys, k)
+	}
+	for k := range nontriv {
+		m.NontrivK = append(m.NontrivK, k)
+	}
+	for _, f := range fails {
+		m.Failures = append(m.Failures, f)
+	}
+	sort.Slice(m.Failures, func(i, j int) bool { return m.Failures[i].Sig < m.Failures[j].Sig })
+	m.WallS = time.Since(start).Seconds()
+	return m
+}
+
+func tail(s string, n int) string {
+	if len(s) > n {
+		return s[len(s)-n:]
+	}
+	return s
+}
+
+func readKeys(path string) (all, nontriv []uint64) {
+	b, err := os.ReadFile(path)
+	if err != nil {
+		return nil, nil
+	}
+	for i := 0; i+9 <= len(b); i += 9 {
+		k := binary.LittleEndian.Uint64(b[i:])
+		all = append(all, k)
+		if b[i+8] != 0 {
+			nontriv = append(nontriv, k)
+		}
+	}
+	return
+}
+
+func init() {
+	// explore <harness> <bound> <table> <bits> <worker index> <deadline unix nano> <keyfile>
+	workers["explore"] = func(args []string) {
+		runtime.GOMAXPROCS(1)
+		h := harnessByName(args[0])
+		bound, _ := strconv.Atoi(args[1])
+		bits, _ := strconv.Atoi(args[3])
+		idx, _ := strconv.Atoi(args[4])
+		dl, _ := strconv.ParseInt(args[5], 10, 64)
+		t, err := vsched.OpenSharedTable(args[2], uint(bits))
+		if err != nil {
+			fmt.Fprintln(os.Stderr, err)
+			os.Exit(4)
+		}
+		sharedTable = t
+		shuffleSeed = uint64(idx)*0x9E3779B97F4A7C15 + 1
+		if idx == 0 {
+			shuffleSeed = 0 // worker 0 keeps the canonical order (continue the running goroutine first)
+		}
+		res := exploreHarness(h, bound, time.Unix(0, dl), 0)
+		if t.IsFull() {
+			res.Stats.Exhaustive = false
+			res.Stats.Stopped = "visited table full"
+		}
+		res.Stats.CacheStates = t.Count()
+		var buf []byte
+		nt := map[uint64]bool{}
+		for _, k := range res.NontrivK {
+			nt[k] = true
+		}
+		for _, k := range res.TraceKeys {
+			var rec [9]byte
+			binary.LittleEndian.PutUint64(rec[:], k)
+			if nt[k] {
+				rec[8] = 1
+			}
+			buf = append(buf, rec[:]...)
+		}
+		if err := os.WriteFile(args[6], buf, 0o600); err != nil {
+			fmt.Fprintln(os.Stderr, err)
+			os.Exit(4)
+		}
+		json.NewEncoder(os.Stdout).Encode(res)
+	}
 }
 
 func report(r *engine.Run, plan []tierPlan, results map[string][]*harnessResult) {
